@@ -1,4 +1,4 @@
 From Coq Require Import Extraction ExtrOcamlBasic.
 From IV Require Import Base.Bytes Model.StoreSpec Model.StoreSpecImpl Model.MemStore Model.FileStore Model.Events.
 Extraction Language OCaml.
-Extraction "c07_model.ml" conv_anchor spec_init run_spec run_mem run_file trace_of sbd_scan sbd_ok count_stored count_deleted xbroker_log xsbd_ok gen_loop gen_fuel final_spec spec_visit.
+Extraction "c07_model.ml" conv_anchor spec_init run_spec run_mem run_file trace_of sbd_scan sbd_ok count_stored count_deleted xbroker_log xsbd_ok gen_loop gen_fuel final_spec spec_visit run_file_segs run_spec_segs file_init.
